@@ -116,6 +116,7 @@ class TLCResult:
         self.coverage = {}
         self.cached = False
         self.tail = ""
+        self.ints = {}
 
 
 def _closure(specdir, module):
@@ -212,6 +213,8 @@ def run_tlc(module, cfg, scratch, data_files=None, workers=16, timeout=1800, sim
             other.append(line.rstrip("\n"))
     text = "\n".join(other)
     res.tail = "\n".join(other[-60:])
+    # integer-valued variables of the last state TLC printed (the end of a counterexample): which run / trace / position it was
+    res.ints = {m.group(1): int(m.group(2)) for m in re.finditer(r"^/\\ (\w+) = (-?\d+)$", text, re.M)}
     m = re.search(r"(\d+) states generated, (\d+) distinct states found", text)
     if m:
         res.generated, res.distinct = int(m.group(1)), int(m.group(2))
